@@ -45,6 +45,16 @@ Expect(api, ctx, v) ==
                   \cup (IF (v + 2) % 8 # 0 THEN {<<"Unaligned", v, -1>>} ELSE {}))
     [] api \in {"ipv4.set_options", "ipv4options.try_from"} -> IF v <= 40 /\ v % 4 = 0 THEN Ok(v) ELSE Rej({<<"BadOptionsLen", v, -1>>})
     [] api \in {"arp.new.hw", "arp.new.proto"} -> IF v <= 255 THEN Ok(v) ELSE Rej({<<"ArpAddrTooBig", v, -1>>})
+    \* setters of an existing ARP packet: v = sender address length, ctx[1] = target length - sender length
+    [] api \in {"arp.set_hw_addrs", "arp.set_protocol_addrs"} ->
+         IF ctx[1] # 0 THEN Rej({<<"LenNonMatching", v, v + ctx[1]>>}) ELSE IF v <= 255 THEN Ok(v) ELSE Rej({<<"LenTooBig", v, -1>>})
+    \* MACsec short length from a payload length: the length itself if the 6 bit field can hold it, else the documented "unknown" (0)
+    [] api = "macsec.short_len.from_len" -> Ok(IF v <= 63 THEN v ELSE 0)
+    \* traffic class octet = DSCP (upper 6 bits) and ECN (lower 2 bits); ctx[1] = traffic class before; the setter changes only its own bits
+    [] api = "ipv6.set_dscp" -> Ok(v * 4 + (ctx[1] % 4))
+    [] api = "ipv6.set_ecn" -> Ok((ctx[1] \div 4) * 4 + v)
+    \* IPv4 payload length derived from the total length v and the header length (ctx[1] = options length)
+    [] api = "ipv4.payload_len" -> IF v >= 20 + ctx[1] THEN Ok(v - 20 - ctx[1]) ELSE Rej({<<"LenError", 20 + ctx[1], v>>})
 
 Around(L) == {x \in {L - 2, L - 1, L, L + 1, L + 2} : x >= 0}
 Probe(L) == {0, 1} \cup Around(L) \cup Around(65535) \cup {Huge}
